@@ -29,14 +29,24 @@ class GroupCoordinator:
         self.groups = {}
         self.initial_delay = 0.0
         self.loading = False
+        self.deny = False      # group ACL revoked: every group request answers GROUP_AUTHORIZATION_FAILED
 
     def group(self, gid):
         if gid not in self.groups:
             self.groups[gid] = Group(gid)
         return self.groups[gid]
 
-    def _check_node(self, node):
+    def _check_node(self, node, api=None):
+        if self.deny:
+            return C.GROUP_AUTHORIZATION_FAILED
         if self.loading:
+            # GroupCoordinator.scala: while the group is loading Heartbeat is answered blindly with NONE and
+            # SyncGroup with REBALANCE_IN_PROGRESS (the member has to start over at JoinGroup); the other
+            # requests get COORDINATOR_LOAD_IN_PROGRESS
+            if api == "heartbeat":
+                return -1
+            if api == "sync":
+                return C.REBALANCE_IN_PROGRESS
             return C.COORDINATOR_LOAD_IN_PROGRESS
         if node != self.c.group_coordinator_node:
             return C.NOT_COORDINATOR
@@ -277,7 +287,7 @@ class GroupCoordinator:
         return 0
 
     def sync(self, node, cls, obj, info):
-        err = self._check_node(node)
+        err = self._check_node(node, "sync")
         if err:
             return {"error_code": err, "member_assignment": b""}
         g = self.group(obj["group"])
@@ -322,9 +332,9 @@ class GroupCoordinator:
         return deferred
 
     def heartbeat(self, node, cls, obj, info):
-        err = self._check_node(node)
+        err = self._check_node(node, "heartbeat")
         if err:
-            return {"error_code": err}
+            return {"error_code": max(err, 0)}
         g = self.group(obj["group"])
         mid = obj["member_id"]
         err = self._validate(g, mid, obj["generation_id"])
